@@ -12,8 +12,9 @@
 (* classifies as letters / digits (TagFormatter!IsWordChar).                *)
 (* A record is accepted when what was observed is an outcome the            *)
 (* specification admits for the recorded input.  One ACCEPT / REJECT line   *)
-(* per record; a REJECT names the failing clauses and, when the observation *)
-(* equals the prediction of a named deviation, that deviation.              *)
+(* per record; a REJECT names the failing clauses and a DEV line follows     *)
+(* with the named deviation whose prediction equals the observation (or     *)
+(* "none").                                                                 *)
 (***************************************************************************)
 EXTENDS TagFormatter, Json, IOUtils
 
@@ -68,7 +69,8 @@ TrInit == tid = 1
 TrNext == /\ tid <= Len(Traces)
           /\ LET r == Traces[tid]  bad == Failing(Traces[tid]) IN
              IF bad = {} THEN PrintT(<<"ACCEPT", r.id>>)
-             ELSE PrintT(<<"REJECT", r.id, 1, bad, Dev(r)>>)
+             \* two short lines: TLC wraps printed values that are wider than 80 columns
+             ELSE PrintT(<<"REJECT", r.id, 1, bad>>) /\ PrintT(<<"DEV", r.id, Dev(r)>>)
           /\ tid' = tid + 1
 TrSpec == TrInit /\ [][TrNext]_tid
 =============================================================================
